@@ -104,7 +104,11 @@ def impl(case):
         return impl_via_request(case)
     import urllib3
     try:
-        body, ct = urllib3.encode_multipart_formdata(build_input(case), boundary=case["boundary"])
+        inp = build_input(case)
+        if case.get("twice"):
+            # the same field objects encoded a second time (a retry, another boundary): encoding must not use them up
+            urllib3.encode_multipart_formdata(inp, boundary="first" + case["boundary"])
+        body, ct = urllib3.encode_multipart_formdata(inp, boundary=case["boundary"])
     except UnicodeEncodeError:
         return [0]
     return [1, list(body), S(ct)]
@@ -326,7 +330,10 @@ def cases(rng, tier):
             for f in fs:
                 if f["ctype"] == "guess" and f["filename"] is None:
                     f["ctype"] = None
-        out.append({"boundary": b, "shape": shape, "fields": fs})
+        c = {"boundary": b, "shape": shape, "fields": fs}
+        if rng.random() < (0.5 if shape == "rf" else 0.15):
+            c["twice"] = True          # the same input objects are encoded a second time
+        out.append(c)
     # lone surrogates: UnicodeEncodeError
     for s in ["\ud800", "a\udfffb"]:
         out.append({"boundary": "b", "shape": "list", "fields": [{"name": s, "filename": None, "ctype": None, "data": ["s", "v"]}]})
